@@ -54,6 +54,17 @@ Theorem C02_proof_bytes : forall O_der O_rfc O_verify devkey guid nonce xb_ok bo
 Proof. exact prove_device_sound. Qed.
 Print Assumptions C02_proof_bytes.
 
+(* conversely the owner demands nothing else of the token (besides a SetupDevice nonce in the unprotected header) *)
+Theorem C02_proof_bytes_complete : forall O_der O_rfc O_verify devkey guid nonce xb_ok body prot unprot pl sig eat xb sn,
+  open_token O_der O_rfc body = Some (prot, unprot, pl, sig, eat) ->
+  Crypter.parse_hdr O_der O_rfc (TFixed 16) (-259)%Z unprot = Ok (Some sn) ->
+  sign1_verify O_der O_rfc O_verify TRaw TBytes devkey prot (Some (VRaw pl)) None sig (VBytes []) = Ok true ->
+  claim 10 eat = Some (VBytes nonce) -> claim 256 eat = Some (VBytes (byte_of_N 1 :: guid)) ->
+  claim (-257) eat = Some (VList [VBytes xb]) -> xb_ok xb = true ->
+  prove_device_ok O_der O_rfc O_verify devkey guid nonce xb_ok body = true.
+Proof. exact prove_device_complete. Qed.
+Print Assumptions C02_proof_bytes_complete.
+
 (* non-vacuity: with the proof, service; without (wrong signer / replayed token / plaintext 66), errors only *)
 Example C02_with_and_without :
   snd (run [] [mkreq 60 TInvalid true false false; mkreq 64 (TSess 0) true false false; mkreq 66 (TSess 0) true true true;
